@@ -874,13 +874,14 @@ func buildAnchors(o Opts) []*Anchor {
 	b.round3()
 	b.round5()
 	b.round6(rng)
+	b.round7()
 	return b.as
 }
 
 const anchorHeader = `From Coq Require Import Reals ZArith QArith List.
 From Coquelicot Require Import Coquelicot.
 From Interval Require Import Tactic.
-From ADV Require Import Base.Num C13.Model C13.Spec C13.Spec2 C13.Spec3 C13.Spec4 C13.Spec6 C13.Anchors C13.Anchors2 C13.Anchors4 C13.Anchors6.
+From ADV Require Import Base.Num C13.Model C13.Spec C13.Spec2 C13.Spec3 C13.Spec4 C13.Spec6 C13.Model7 C13.Anchors C13.Anchors2 C13.Anchors4 C13.Anchors6 C13.Anchors7.
 Open Scope R_scope.
 `
 
